@@ -8,7 +8,7 @@ git apply /verif/seeded/$ID/patch.diff || { echo "patch does not apply"; exit 2;
 trap 'git -C /repo checkout -- . ; git -C /repo status --porcelain' EXIT
 cd /verif
 for c in "$@"; do
-  VERIF_EVIDENCE_DIR=/tmp/seedev VERIF_REPLAY_DIR=/tmp/seedreplays ./check $c --tier quick > /tmp/seedrun-$ID-$c.log 2>&1; rc=$?
+  VERIF_BUDGET_S=${VERIF_BUDGET_S:-2400} VERIF_EVIDENCE_DIR=/tmp/seedev VERIF_REPLAY_DIR=/tmp/seedreplays ./check $c --tier quick > /tmp/seedrun-$ID-$c.log 2>&1; rc=$?
   n=$(grep -c '^VIOLATION' /tmp/seedrun-$ID-$c.log)
   echo "seed=$ID check=$c exit=$rc violations=$n $(grep -m1 -A1 '^VIOLATION' /tmp/seedrun-$ID-$c.log | tail -1 | cut -c1-200)"
 done
